@@ -6,6 +6,7 @@ package main
 // through gen/ -> Gen/TopoSchema.v and finds fields by Go name).
 
 import (
+	"io"
 	"math"
 	"os"
 	"reflect"
@@ -14,7 +15,17 @@ import (
 	"strings"
 
 	topology "github.com/SKAARHOJ/rawpanel-lib/topology"
+	log "github.com/s00500/env_logger"
+	"github.com/sirupsen/logrus"
 )
+
+func init() {
+	// the library logs XML/JSON errors on STDOUT through env_logger; keep the case stream clean
+	l := logrus.New()
+	l.SetOutput(io.Discard)
+	l.SetLevel(logrus.PanicLevel)
+	log.ConfigureAllLoggers(l, "")
+}
 
 // the library prints diagnostics with fmt.Printf; keep them out of the case stream
 func silenceStdout() {
@@ -424,3 +435,5 @@ func attrFields(t reflect.Type) []int {
 	}
 	return r
 }
+
+func floatFromBits(b uint32) float32 { return math.Float32frombits(b) }
